@@ -132,12 +132,14 @@ CHECKS = {
         "timeout": {"quick": 1200, "thorough": 14000},
     },
     "C06": {
-        "scenarios": [("C06-replay", "vsim"), ("C06-cache", "vsim"), ("C06-conc", "vrace")],
+        "scenarios": [("C06-replay", "vsim"), ("C06-cross", "vsim"), ("C06-cache", "vsim"), ("C06-conc", "vrace")],
         "races": True,
         "rule": "(a) end to end: a genuine session is recorded at the network boundary and replayed from a foreign address (whole "
                 "stream / prefix at a segment boundary / first segment; 1-3 times; 0..179 s later; original open or closed; with or "
                 "without a concurrent fresh genuine connection; a quarter of the cases place the original 3 s before a known rotation "
-                "instant of the process-wide cache); (b) replay.NewCache with capacity 1..8 and interval 2..10 virtual seconds under "
+                "instant of the process-wide cache); (a') the recorded first segment / all segments presented on the OTHER transport of "
+                "the same server port (TCP recording as UDP datagrams, UDP recording as a TCP stream), first write below and above the "
+                "piggy-back limit, with low-entropy patterns; (b) replay.NewCache with capacity 1..8 and interval 2..10 virtual seconds under "
                 "300-operation random histories checked against an executable specification with a strict and a lenient capacity "
                 "bound; (c) concurrent IsDuplicate histories (2-8 goroutines) checked for linearizability with porcupine under the "
                 "race detector; distinct = hash of the case parameters",
